@@ -7,3 +7,5 @@ pub mod rule;
 pub mod find;
 pub mod posix;
 pub mod zone;
+pub mod tzif;
+pub mod resolve;
